@@ -1,5 +1,6 @@
 (* C08 -- Path text and parsed segments round-trip in both notations.
-   Statements only; proofs live in Proofs/RtStep.v RtSeg.v RtRender.v RtTables.v.
+   Statements only; proofs live in Proofs/RtStep.v RtSeg.v RtInt.v RtRender.v RtTables.v
+   RtCanon.v RtClauses.v RtPop.v.
 
    Vocabulary: Spec/C08Spec.v defines the documented writer [render_ref] over
    styled segments (a segment plus the writer's free choices: quote
@@ -10,45 +11,54 @@
    runs); [stringify], [y_eq], [y_append], [y_pop] model the printer and the
    YAMLPath object (Model/PathPrinter.v).
 
-   STATUS
-     C08_parse_render_partial       proved for every segment kind except SEARCH
-                                    (guard [not_search]); the element-index guard
-                                    [idx_guard] is the computable statement that
-                                    int(str(n)) = n for the index n.
-     C08_parse_render_auto_partial  the same with separator inference.
-     C08_*_ok                       side conditions over the regenerated tables.
-     C08_parse_render_F21_refuted   finding F21 (quote-wrapped search term).
-     C08_eq_iff_F23_refuted         finding F23 (__eq__ and an escaped dot).
-     C08_canonical / C08_fixpoint / C08_eq_iff / C08_append_pop
-                                    stated below as propositions (Definition ... : Prop),
-                                    NOT proved; instances are checked by computation in
-                                    the Examples and on every generated case by
-                                    harness/c08.py (judge). *)
+   STATUS (every theorem below is proved; Print Assumptions: closed)
+     C08_parse_render_partial       clause 1, every segment kind incl. SEARCH, both notations;
+                                    only guard [wf] (F21 is the one finding inside it)
+     C08_parse_render_auto_partial  the same through separator inference (exclusion guard)
+     C08_int_of_str                 int(str(n)) = n for all integers
+     C08_canonical_partial / C08_canonical_auto_partial / C08_fixpoint_partial
+                                    clause 2; guards [wfc], [dot_text_ok], non-blank dot text
+     C08_escape_symbol_scan / C08_ensure_escaped_written
+                                    ensure_escaped as a left-to-right scan
+     C08_eq_iff_partial             clause 3; guard [no_dot_key] = finding F23
+     C08_append_pop_cut_partial / C08_append_pop_partial
+                                    clause 4 for a tail written after a separator, when pop()
+                                    cuts a canonical tail or rebuilds (no suffix match)
+     C08_*_ok                       side conditions over the regenerated tables
+     C08_parse_render_F21_refuted   finding F21 (quote-wrapped search term)
+     C08_eq_iff_F23_refuted         finding F23 (__eq__ and an escaped dot)
+   NOT proved: clause 4 for a tail that carries its own demarcation ([0], [a=b],
+   (collector), [&a]) and for accidental suffix matches of a non-canonical tail;
+   both are checked on every generated case by harness/c08.py (judge). *)
 From Coq Require Import List Ascii String ZArith Bool.
-From YP Require Import Outcome PyStr Generated PathParser PathPrinter C08Spec RtStep RtSeg RtRender RtTables.
+From YP Require Import Outcome PyStr Generated PathParser PathPrinter C08Spec RtStep RtSeg RtInt RtRender RtTables RtCanon RtClauses RtPop.
 Import ListNotations.
 Open Scope string_scope.
 
 (* ---- clause 1: writing then parsing gives back the segments ---- *)
+(* Every segment kind, both notations, any length, any text.  The only guard
+   is [wf]; its clauses name what the notation cannot express, plus the one
+   listed finding F21 ([quote_wrapped], hence "_partial"). *)
 Theorem C08_parse_render_partial :
   forall (sp : sep) (l : list sseg),
-    wf sp l = true -> forallb idx_guard l = true -> forallb not_search l = true ->
-    parse (Forced sp) true (render_ref sp l) = Ok (segs_of l).
-Proof. exact parse_render_nosearch. Qed.
+    wf sp l = true -> parse (Forced sp) true (render_ref sp l) = Ok (segs_of l).
+Proof. exact parse_render. Qed.
 Print Assumptions C08_parse_render_partial.
 
+(* through separator inference; "dot text must not start with /" is the
+   property's own exclusion *)
 Theorem C08_parse_render_auto_partial :
   forall (sp : sep) (l : list sseg),
-    wf sp l = true -> forallb idx_guard l = true -> forallb not_search l = true ->
+    wf sp l = true ->
     (sp = Dot -> first_not_in ["/"%char] (render_ref sp l) = true) ->
     parse Auto true (render_ref sp l) = Ok (segs_of l).
-Proof. exact parse_render_nosearch_auto. Qed.
+Proof. exact parse_render_auto. Qed.
 Print Assumptions C08_parse_render_auto_partial.
 
-(* the full statement (every kind, no index guard) *)
-Definition C08_parse_render_statement : Prop :=
-  forall (sp : sep) (l : list sseg),
-    wf sp l = true -> parse (Forced sp) true (render_ref sp l) = Ok (segs_of l).
+(* int(str(n)) = n for every integer: the element index needs no guard *)
+Theorem C08_int_of_str : forall n : Z, py_int (str_of_Z n) = Some n.
+Proof. exact py_int_str_of_Z. Qed.
+Print Assumptions C08_int_of_str.
 
 (* ---- side conditions over the tables regenerated from the Python source ---- *)
 Theorem C08_section_syms_ok : section_syms_ok = true.
@@ -62,37 +72,97 @@ Theorem C08_key_specials_cover :
     mem_ascii c (key_specials (sep_char sp)) = false -> top_plain (sep_char sp) c = true.
 Proof. exact key_specials_cover. Qed.
 
-(* ---- clauses 2-4, stated (not proved) ---- *)
-Definition canon (sp' : sep) (text : string) : outcome string :=
-  do u <- parse Auto false text; Ok (stringify (Some sp') u).
-
-Definition C08_canonical_statement : Prop :=
+(* ---- clause 2: the canonical string re-parses to the same segments, in
+   either notation, and is a fixed point of str().
+   [canon sp' text] = str() of YAMLPath(text) with the separator set to sp'.
+   Guards: [wfc] (= [wf] + what str() cannot re-express: a back-slash right
+   before an escapable symbol, "*" in a quoted key, a regex with all ten
+   delimiter candidates; F21 inside); [dot_text_ok] = the property's own
+   exclusion; a canonical dot text that is blank to str.strip() is the empty
+   path (only a single key made of tabs / line feeds: not escapable). ---- *)
+Theorem C08_canonical_partial :
   forall (sp sp' : sep) (l : list sseg) (c : string),
-    wfc sp l = true -> (sp = Dot -> first_not_in ["/"%char] (render_ref sp l) = true) ->
+    wfc sp l = true -> dot_text_ok sp (render_ref sp l) = true ->
     canon sp' (render_ref sp l) = Ok c ->
+    (sp' = Dot -> (is_nil l || nonblank c) = true) ->
     parse (Forced sp') true c = Ok (segs_of l).
+Proof. exact canonical. Qed.
+Print Assumptions C08_canonical_partial.
 
-Definition C08_fixpoint_statement : Prop :=
+(* the same when the canonical text is handed to YAMLPath() afresh (separator
+   inference): a canonical dot text starting with "/" is excluded *)
+Theorem C08_canonical_auto_partial :
   forall (sp sp' : sep) (l : list sseg) (c : string),
-    wfc sp l = true -> (sp = Dot -> first_not_in ["/"%char] (render_ref sp l) = true) ->
+    wfc sp l = true -> dot_text_ok sp (render_ref sp l) = true ->
     canon sp' (render_ref sp l) = Ok c ->
-    path_str (Forced sp') c = Ok c.
+    (sp' = Dot -> (is_nil l || nonblank c) = true) -> dot_text_ok sp' c = true ->
+    parse Auto true c = Ok (segs_of l).
+Proof. exact canonical_auto. Qed.
+Print Assumptions C08_canonical_auto_partial.
 
-Definition C08_eq_iff_statement : Prop :=
+Theorem C08_fixpoint_partial :
+  forall (sp sp' : sep) (l : list sseg) (c : string),
+    wfc sp l = true -> dot_text_ok sp (render_ref sp l) = true ->
+    canon sp' (render_ref sp l) = Ok c ->
+    (sp' = Dot -> (is_nil l || nonblank c) = true) ->
+    path_str (Forced sp') c = Ok c.
+Proof. exact fixpoint. Qed.
+Print Assumptions C08_fixpoint_partial.
+
+(* the printer's algorithm: ensure_escaped for a one-character symbol is a
+   left-to-right scan (all strings), and on a text written with back-slash
+   escapes it back-slashes exactly the missing symbols *)
+Theorem C08_escape_symbol_scan :
+  forall (d : ascii) (v : string), Ascii.eqb d "\"%char = false -> escape_symbol v (str1 d) = scan1 d v.
+Proof. exact escape_symbol_scan. Qed.
+Theorem C08_ensure_escaped_written :
+  forall (ds E : list ascii) (k : string),
+    mem_ascii "\"%char E = true -> forallb (fun d => negb (Ascii.eqb d "\"%char)) ds = true ->
+    no_bs_before ds k = true ->
+    ensure_escaped (esc_with E k) (map str1 ds) = esc_with (rev ds ++ E)%list k.
+Proof. exact ensure_escaped_esc. Qed.
+
+(* ---- clause 3: two paths compare equal exactly when their segments are equal.
+   Guard [no_dot_key] = listed finding F23. ---- *)
+Theorem C08_eq_iff_partial :
   forall (sp1 sp2 : sep) (l1 l2 : list sseg),
     wfc sp1 l1 = true -> wfc sp2 l2 = true ->
     forallb no_dot_key l1 = true -> forallb no_dot_key l2 = true ->      (* F23 *)
-    (sp1 = Dot -> first_not_in ["/"%char] (render_ref sp1 l1) = true) ->
-    (sp2 = Dot -> first_not_in ["/"%char] (render_ref sp2 l2) = true) ->
+    dot_text_ok sp1 (render_ref sp1 l1) = true -> dot_text_ok sp2 (render_ref sp2 l2) = true ->
     exists b, y_eq (y_new (render_ref sp1 l1)) (render_ref sp2 l2) = Ok b
               /\ (b = true <-> segs_of l1 = segs_of l2).
+Proof. exact eq_iff. Qed.
+Print Assumptions C08_eq_iff_partial.
 
-Definition C08_append_pop_statement : Prop :=
+(* ---- clause 4: appending a segment then popping it restores the path.
+   Proved for a tail that is written after a separator ([needs_sep]: key, "*",
+   "**", bare anchor) in the two situations pop() distinguishes: the tail is in
+   canonical form (the text is cut, and the path TEXT is restored), or no
+   suffix test matches (the path is rebuilt from the remaining segments; its
+   text is the canonical one, the segments are restored).  The rebuilt text is
+   a canonical dot text, so the property's exclusion applies to it. ---- *)
+Theorem C08_append_pop_cut_partial :
+  forall (sp : sep) (l : list sseg) (x : sseg),
+    l <> [] -> wf sp l = true -> wfc sp (l ++ [x]) = true ->
+    dot_text_ok sp (render_ref sp l) = true -> needs_sep x = true ->
+    tail_canonical sp x = true ->
+    exists p', y_pop (y_append (body (sep_char sp) x) (y_new (render_ref sp l)))
+               = (Ok (kseg false (sep_char sp) (plain_x x)), p')
+               /\ y_orig p' = render_ref sp l /\ fst (y_escaped p') = Ok (segs_of l).
+Proof. exact append_pop_cut. Qed.
+Print Assumptions C08_append_pop_cut_partial.
+
+Theorem C08_append_pop_partial :
   forall (sp : sep) (l : list sseg) (x : sseg),
     l <> [] -> wfc sp l = true -> wfc sp (l ++ [x]) = true ->
-    (sp = Dot -> first_not_in ["/"%char] (render_ref sp l) = true) ->
-    let p := y_append (body (sep_char sp) x) (y_new (render_ref sp l)) in
-    exists sg p', y_pop p = (Ok sg, p') /\ fst (y_escaped p') = Ok (segs_of l).
+    dot_text_ok sp (render_ref sp l) = true -> needs_sep x = true ->
+    (tail_canonical sp x || no_suffix_match sp l x) = true ->
+    dot_text_ok sp (canon_of sp sp l) = true -> (sp = Dot -> nonblank (canon_of sp sp l) = true) ->
+    exists sg p', y_pop (y_append (body (sep_char sp) x) (y_new (render_ref sp l))) = (Ok sg, p')
+                  /\ sg = kseg false (sep_char sp) (plain_x x)
+                  /\ fst (y_escaped p') = Ok (segs_of l).
+Proof. exact append_pop. Qed.
+Print Assumptions C08_append_pop_partial.
 
 (* ---- non-vacuity: keys with every escapable character are well-formed, and
    every segment kind occurs ---- *)
@@ -123,13 +193,11 @@ Definition sample_path : list sseg :=
 
 Example C08_parse_render_nonvacuous :
   wf Dot sample_path = true /\ wf Slash sample_path = true
-  /\ forallb idx_guard sample_path = true /\ forallb not_search sample_path = true
   /\ render_ref Dot sample_path
      = "hash.dotted\.child\ key[-12][1:2][&anchor_1].*.**[!has_child(a\ b,c)]((a.b)+(c))-(x/y).'\'quoted\' \[key\]'".
 Proof. vm_compute. repeat split; reflexivity. Qed.
 
-(* SEARCH segments: the statement holds on these instances (a test, by
-   computation; the general proof is the missing fragment) *)
+(* SEARCH segments with every escapable character in attribute and term *)
 Definition sample_searches : list sseg :=
   [ ((Some TKey, AStr "x"), plain_style);
     ((Some TSearch, ASearch true MEquals "full name" "Some User's Name"), mkstyle (Some DQ) false false "/"%char);
@@ -137,10 +205,35 @@ Definition sample_searches : list sseg :=
     ((Some TSearch, ASearch false MRegex "." "^a/b|c$"), mkstyle None false false "#"%char);
     ((Some TSearch, ASearch false MStartsWith "enc" "ENC["), plain_style) ].
 
-Example C08_parse_render_search_instances :
-  wf Dot sample_searches = true
-  /\ parse (Forced Dot) true (render_ref Dot sample_searches) = Ok (segs_of sample_searches)
-  /\ parse (Forced Slash) true (render_ref Slash sample_searches) = Ok (segs_of sample_searches).
+Example C08_parse_render_search_nonvacuous :
+  wf Dot sample_searches = true /\ wf Slash sample_searches = true
+  /\ wf Dot [((Some TSearch, ASearch true MContains every_escapable every_escapable), plain_style)] = true
+  /\ render_ref Dot sample_searches
+     = "x[full\ name!=""Some User\'s Name""][!lvl>=5\ \%][.=~#^a/b|c$#][enc^ENC\[]".
+Proof. vm_compute. repeat split; reflexivity. Qed.
+
+(* non-vacuity of the guards of clauses 2-3: every escapable character in keys,
+   attributes and terms; both target notations; the exclusion guard holds for
+   a dot text that does not start with "/" and fails for one that does *)
+Definition escapable_path : list sseg :=
+  [ ((Some TKey, AStr every_escapable), plain_style);
+    ((Some TKey, AStr every_escapable), mkstyle (Some DQ) false false "/"%char);
+    ((Some TSearch, ASearch true MContains every_escapable "a.b/c(d)e[f]g^h$i%j k'l""m"), mkstyle (Some SQ) false true "/"%char);
+    ((Some TSearch, ASearch false MRegex "x" "^a/b|c#d@e,f;g:h$"), mkstyle None false false "~"%char) ].
+
+Example C08_canonical_nonvacuous :
+  wfc Dot (sample_path ++ escapable_path) = true /\ wfc Slash (sample_path ++ escapable_path) = true
+  /\ dot_text_ok Dot (render_ref Dot (sample_path ++ escapable_path)) = true
+  /\ (exists c, canon Dot (render_ref Slash escapable_path) = Ok c /\ nonblank c = true /\ dot_text_ok Dot c = true)
+  /\ dot_text_ok Dot (render_ref Dot [((Some TKey, AStr "/"), mkstyle (Some DQ) false false "/"%char)]) = true
+  /\ canon Dot (render_ref Dot [((Some TKey, AStr "/"), mkstyle (Some DQ) false false "/"%char)]) = Ok "/"
+  /\ dot_text_ok Dot "/" = false.
+Proof. vm_compute. repeat split; try reflexivity. eexists. repeat split; reflexivity. Qed.
+
+Example C08_eq_nonvacuous :
+  forallb no_dot_key [((Some TKey, AStr "a\b/c(d)e[f]g^h$i%j k'l""m"), plain_style)] = true
+  /\ wfc Dot [((Some TKey, AStr "a\b/c(d)e[f]g^h$i%j k'l""m"), plain_style)] = true
+  /\ forallb no_dot_key sample_searches = true.
 Proof. vm_compute. repeat split; reflexivity. Qed.
 
 (* clauses 2-4 on instances (tests, by computation) *)
@@ -156,6 +249,22 @@ Example C08_eq_instances :
   y_eq (y_new (render_ref Dot sample_searches)) (render_ref Slash sample_searches) = Ok true
   /\ y_eq (y_new "a.b[0]") "/a/b/0" = Ok false.
 Proof. vm_compute. split; reflexivity. Qed.
+
+(* non-vacuity of clause 4: a canonical tail and a quoted tail with every
+   escapable character; the guard that excludes the path "/" in quotes (dot
+   notation), whose canonical dot text is "/" *)
+Example C08_append_pop_nonvacuous :
+  let k := ((Some TKey, AStr "x"), plain_style) in
+  let tail_plain := ((Some TKey, AStr every_escapable), plain_style) in
+  let tail_quoted := ((Some TKey, AStr every_escapable), mkstyle (Some SQ) false false "/"%char) in
+  let slash_key := ((Some TKey, AStr "/"), mkstyle (Some DQ) false false "/"%char) in
+  wfc Dot [k; tail_plain] = true /\ tail_canonical Dot tail_plain = true /\ tail_canonical Slash tail_plain = true
+  /\ wfc Dot [k; tail_quoted] = true /\ no_suffix_match Dot [k] tail_quoted = true
+  /\ no_suffix_match Slash [k] tail_quoted = true
+  /\ dot_text_ok Dot (canon_of Dot Dot [k]) = true /\ nonblank (canon_of Dot Dot [k]) = true
+  /\ wfc Dot [slash_key; tail_quoted] = true /\ dot_text_ok Dot (render_ref Dot [slash_key]) = true
+  /\ dot_text_ok Dot (canon_of Dot Dot [slash_key]) = false.
+Proof. vm_compute. repeat split; reflexivity. Qed.
 
 Example C08_append_pop_instances :
   (let p := y_append "'a b'" (y_new "x.y") in (fst (y_pop p), y_orig (snd (y_pop p))))
